@@ -115,3 +115,36 @@ Theorem C07_runOnce_last_step_not_projection rk ya :
   last_write DX (runOnce_trace rk true ya) = Some (if ya then WDisplace else WBlend DX).
 Proof. exact (runOnce_last_step_not_projection rk ya). Qed.
 Print Assumptions C07_runOnce_last_step_not_projection.
+
+(* ---- single-axis runs: run(true,false) / run(false,true) / run(false,false) ---- *)
+Theorem C07_run_projections rk xa ya iters :
+  projs (run_trace rk xa ya iters) = rep_tr iters (iteration_projs rk xa ya).
+Proof. exact (run_projs_thm rk xa ya iters). Qed.
+Print Assumptions C07_run_projections.
+
+Theorem C07_single_axis_run_ends_with_both_projections rk xa ya iters :
+  (1 <= iters)%nat -> exists pre, run_trace rk xa ya iters = pre ++ [WProj DX; WProj DY].
+Proof. exact (single_axis_run_ends_with_both_projections_thm rk xa ya iters). Qed.
+Print Assumptions C07_single_axis_run_ends_with_both_projections.
+
+Theorem C07_single_axis_other_axis_writes rk iters :
+  forallb (only_proj_or_displace DY) (run_trace rk true false iters) = true /\
+  forallb (only_proj_or_displace DX) (run_trace rk false true iters) = true /\
+  forallb (fun w => match w with WProj _ => true | _ => false end) (run_trace rk false false iters) = true.
+Proof. exact (single_axis_other_axis_writes_thm rk iters). Qed.
+Print Assumptions C07_single_axis_other_axis_writes.
+
+Theorem C07_axes_only_variant_refuted rk iters :
+  (1 <= iters)%nat ->
+  projs (run_trace_axes rk true false iters) = rep_tr iters (rep_tr (if rk then 9%nat else 3%nat) [DX]) /\
+  last_write DY (run_trace_axes rk true false iters) = Some WDisplace /\
+  last_write DX (run_trace_axes rk false true iters) = Some WDisplace /\
+  run_trace_axes rk true true iters = run_trace rk true true iters.
+Proof. exact (axes_only_variant_refuted_thm rk iters). Qed.
+Print Assumptions C07_axes_only_variant_refuted.
+
+Theorem C07_axes_only_variant_can_end_infeasible (feasX feasY : list Q -> Prop) X0 Y0 rk iters :
+  feasX X0 -> ~ feasY Y0 ->
+  exists s', steps feasX feasY (run_trace_axes rk true false iters) (X0, Y0) s' /\ ~ feasY (snd s').
+Proof. exact (axes_only_variant_can_end_infeasible_thm feasX feasY X0 Y0 rk iters). Qed.
+Print Assumptions C07_axes_only_variant_can_end_infeasible.
